@@ -253,6 +253,7 @@ func (fg *FuncGen) applyCall(cl *callee, args []Val, pos token.Pos, guard string
 	}
 	// ghost call trace
 	fg.recordCall(cl, args, guard)
+	fg.callEpoch++
 
 	resT := cl.sig.Results()
 	var resTyp types.Type = resT
@@ -288,6 +289,7 @@ func (fg *FuncGen) applyCall(cl *callee, args []Val, pos token.Pos, guard string
 	}
 	// frame
 	fg.havocForCall(cl, args, st, pre)
+	fg.ownObjectsAcrossCall(pre, st, txt)
 	// results
 	var results []Val
 	var rv Val
@@ -863,27 +865,33 @@ func (fg *FuncGen) execAppend(res ssa.Value, c *ssa.CallCommon, pos token.Pos) {
 		// in place: exactly the k stores
 		row := oldRow
 		for j := 0; j < k; j++ {
-			idx := e.iop("+", e.iop("+", "(soff "+s.T+")", ls, true), e.ilit(int64(j)), true)
-			src := fmt.Sprintf("(select %s %s)", tRow, e.iop("+", "(soff "+t.T+")", e.ilit(int64(j)), true))
+			idx := e.at("(soff "+s.T+")", e.iop("+", ls, e.ilit(int64(j)), true), true)
+			src := fmt.Sprintf("(select %s %s)", tRow, e.at("(soff "+t.T+")", e.ilit(int64(j)), true))
 			row = fmt.Sprintf("(store %s %s %s)", row, idx, src)
 		}
 		fg.assume(implies(fits, fmt.Sprintf("(= %s %s)", newRow, row)))
 		for j := 0; j < k; j++ {
-			src := fmt.Sprintf("(select %s %s)", tRow, e.iop("+", "(soff "+t.T+")", e.ilit(int64(j)), true))
-			fg.assume(implies(not(fits), fmt.Sprintf("(= (select %s %s) %s)", newRow, e.iop("+", ls, e.ilit(int64(j)), true), src)))
+			src := fmt.Sprintf("(select %s %s)", tRow, e.at("(soff "+t.T+")", e.ilit(int64(j)), true))
+			fg.assume(implies(not(fits), fmt.Sprintf("(= (select %s %s) %s)", newRow, e.at("(soff "+r+")", e.iop("+", ls, e.ilit(int64(j)), true), true), src)))
 		}
 	} else {
 		e.usesQuant = true
-		fg.assume(fmt.Sprintf("(forall ((j %s)) (! (=> (and %s %s) (= (select %s %s) (select %s %s))) :pattern ((select %s j))))", I,
+		// appended elements: newRow[at(off_r, len_s + j)] == tRow[at(off_t, j)]
+		fg.assume(fmt.Sprintf("(forall ((j %s)) (! (=> (and %s %s) (= (select %s %s) (select %s %s))) :pattern (%s)))", I,
 			e.iop("<=", e.ilit(0), "j", true), e.iop("<", "j", lt, true),
-			newRow, e.iop("+", e.iop("+", "(soff "+r+")", ls, true), "j", true), tRow, e.iop("+", "(soff "+t.T+")", "j", true), tRow))
-		fg.assume(implies(fits, fmt.Sprintf("(forall ((j %s)) (! (=> (not (and %s %s)) (= (select %s j) (select %s j))) :pattern ((select %s j))))", I,
-			e.iop("<=", e.iop("+", "(soff "+s.T+")", ls, true), "j", true), e.iop("<", "j", e.iop("+", "(soff "+s.T+")", n, true), true), newRow, oldRow, newRow)))
+			newRow, e.at("(soff "+r+")", e.iop("+", ls, "j", true), false), tRow, e.at("(soff "+t.T+")", "j", false), e.at("(soff "+t.T+")", "j", false)))
+		// in place: every other position of the row keeps its value
+		fg.assume(implies(fits, fmt.Sprintf("(forall ((k %s)) (! (=> (not (and %s %s)) (= (select %s k) (select %s k))) :pattern ((select %s k))))", I,
+			e.iop("<=", e.iop("+", "(soff "+s.T+")", ls, true), "k", true), e.iop("<", "k", e.iop("+", "(soff "+s.T+")", n, true), true), newRow, oldRow, newRow)))
 	}
-	// reallocation copies the old elements
+	// reallocation copies the old elements: newRow[at(0, j)] == oldRow[at(off_s, j)]
 	e.usesQuant = true
-	fg.assume(implies(not(fits), fmt.Sprintf("(forall ((j %s)) (! (=> (and %s %s) (= (select %s j) (select %s %s))) :pattern ((select %s j))))", I,
-		e.iop("<=", e.ilit(0), "j", true), e.iop("<", "j", ls, true), newRow, oldRow, e.iop("+", "(soff "+s.T+")", "j", true), newRow)))
+	fg.assume(implies(not(fits), fmt.Sprintf("(forall ((j %s)) (! (=> (and %s %s) (= (select %s %s) (select %s %s))) :pattern (%s)))", I,
+		e.iop("<=", e.ilit(0), "j", true), e.iop("<", "j", ls, true), newRow, e.at("(soff "+r+")", "j", false), oldRow, e.at("(soff "+s.T+")", "j", false), e.at("(soff "+r+")", "j", false))))
+	// the definition of at() for bound indices (instantiated on at-terms only)
+	if !e.bv {
+		e.axiom(fmt.Sprintf("(forall ((a %s) (b %s)) (! (= (at a b) %s) :pattern ((at a b))))", I, I, e.iop("+", "a", "b", true)))
+	}
 	fg.set(st, comp, fmt.Sprintf("(store %s (sbase %s) %s)", h, r, newRow))
 	fg.vals[res] = Val{T: r, Typ: s.Typ}
 }
@@ -952,6 +960,9 @@ func (fg *FuncGen) execReturn(x *ssa.Return) {
 		results = append(results, v)
 	}
 	fg.returns = append(fg.returns, retEdge{cond: fg.reach, st: fg.cur, results: results, pos: x.Pos()})
+	if fg.ct != nil && fg.ct.ExitsSeparate {
+		fg.checkExit(fg.cur, results)
+	}
 }
 
 func (fg *FuncGen) finishReturns() {
@@ -987,6 +998,14 @@ func (fg *FuncGen) finishReturns() {
 		results = append(results, v)
 	}
 	fg.lastPos = fg.fn.Pos()
+	if fg.ct != nil && fg.ct.ExitsSeparate {
+		return
+	}
+	fg.checkExit(st, results)
+}
+
+// checkExit: postconditions, frame and object invariants at an exit state.
+func (fg *FuncGen) checkExit(st *State, results []Val) {
 	if fg.ct != nil {
 		env := fg.ownEnv(st, fg.entry)
 		env.results = results
@@ -1183,30 +1202,71 @@ func (fg *FuncGen) invTerm(ct *Contract, ptrT types.Type, ref string, st *State)
 	return and(cs...)
 }
 
-// assumeObjInv: object invariants hold for objects in the entry heap, and for objects handed back by callees.
+// assumeObjInv: object invariants hold at every call boundary for every allocated object
+// (visible-state semantics: each function re-establishes the invariant of every object it
+// writes, checked by objInvObligations).  For a pointer obtained in this function:
+//   - returned by a callee: the invariant holds in the current state;
+//   - otherwise, if the object existed at entry: it holds in the current state as long as this
+//     function has not itself written a field of that struct type (then only the entry-state
+//     fact is used).
 func (fg *FuncGen) assumeObjInv(v Val, st *State, post bool) {
 	if v.T == "" || v.Typ == nil {
 		return
 	}
-	ct, _ := fg.structInvFor(v.Typ)
+	ct, n := fg.structInvFor(v.Typ)
 	if ct == nil {
 		return
 	}
-	key := v.T
-	if post {
-		key += "@post"
-	}
+	dirty := fg.dirty[typeKey(n)]
+	key := fmt.Sprintf("%s|%v|%v|%d", v.T, post, dirty, fg.callEpoch)
 	if fg.invAssumed[key] {
 		return
 	}
 	fg.invAssumed[key] = true
 	if post {
-		fg.assumeHere(implies(fmt.Sprintf("(not (= %s 0))", v.T), fg.invTerm(ct, v.Typ, v.T, st)))
+		fg.assumeHere(implies(fmt.Sprintf("(not (= %s 0))", v.T), fg.invTerm(ct, v.Typ, v.T, fg.cur)))
 		return
 	}
-	a0 := fg.allocTerm(fg.entry)
-	fg.assume(implies(fmt.Sprintf("(and (not (= %s 0)) (< %s %s))", v.T, v.T, a0), fg.invTerm(ct, v.Typ, v.T, fg.entry)))
+	// not one of the objects this function allocates itself (they may be under construction)
+	var own []string
+	for _, r := range fg.ownAllocs {
+		own = append(own, fmt.Sprintf("(not (= %s %s))", v.T, r))
+	}
+	guard := and(append([]string{fmt.Sprintf("(not (= %s 0))", v.T)}, own...)...)
+	if dirty {
+		a0 := fg.allocTerm(fg.entry)
+		guard = and(guard, fmt.Sprintf("(< %s %s)", v.T, a0))
+		fg.assume(implies(guard, fg.invTerm(ct, v.Typ, v.T, fg.entry)))
+	} else {
+		fg.assumeHere(implies(guard, fg.invTerm(ct, v.Typ, v.T, fg.cur)))
+	}
 	fg.note("object invariant of %s assumed for pre-existing objects", ct.Key)
+}
+
+// assumeObjInvIn: the same for a reference read inside a specification, in the state the
+// specification is evaluated in (always a call boundary or the entry state).
+func (fg *FuncGen) assumeObjInvIn(v Val, st *State) {
+	ct, n := fg.structInvFor(v.Typ)
+	if ct == nil || fg.inInv {
+		return
+	}
+	if fg.dirty[typeKey(n)] && st != fg.entry {
+		return
+	}
+	key := fmt.Sprintf("spec|%s|%p", v.T, st)
+	if fg.invAssumed[key] {
+		return
+	}
+	fg.invAssumed[key] = true
+	var own []string
+	for _, r := range fg.ownAllocs {
+		own = append(own, fmt.Sprintf("(not (= %s %s))", v.T, r))
+	}
+	guard := and(append([]string{fmt.Sprintf("(not (= %s 0))", v.T)}, own...)...)
+	fg.inInv = true
+	inv := fg.invTerm(ct, v.Typ, v.T, st)
+	fg.inInv = false
+	fg.assumeHere(implies(guard, inv))
 }
 
 func (fg *FuncGen) assumeStructInvsAtEntry() {
@@ -1224,7 +1284,7 @@ func (fg *FuncGen) objInvObligations(st *State) {
 		if ct == nil {
 			continue
 		}
-		goal := implies(fmt.Sprintf("(not (= %s 0))", tv.T), fg.invTerm(ct, tv.Typ, tv.T, st))
+		goal := implies(and(tv.cond, fmt.Sprintf("(not (= %s 0))", tv.T)), fg.invTerm(ct, tv.Typ, tv.T, st))
 		fg.oblige("objinv", ct.Key+" "+tv.what, goal, ct.Props, "invariant")
 	}
 }
@@ -1250,6 +1310,9 @@ func (fg *FuncGen) ghostComp(st types.Type, gf *GhostField, ct *Contract) *Comp 
 // fieldStored is called after a store to field `field` of the object ref of struct type st
 // (field == "" means every field, e.g. allocation or whole-struct assignment).
 func (fg *FuncGen) fieldStored(st types.Type, ref, field string, isAlloc bool, pos token.Pos) {
+	if !isAlloc {
+		fg.dirty[typeKey(st)] = true
+	}
 	ct := fg.structContract(st)
 	if ct == nil {
 		return
@@ -1337,4 +1400,38 @@ func (fg *FuncGen) implEnv(st, old *State, names []string) *SpecEnv {
 		}
 	}
 	return env
+}
+
+// ownObjectsAcrossCall: visible-state discipline for the objects this function allocated or
+// wrote: if the callee may write fields their invariant depends on, the invariant must hold
+// when the call is made (the callee relies on it) and holds again when it returns.
+func (fg *FuncGen) ownObjectsAcrossCall(pre, st *State, callTxt string) {
+	for _, k := range sortedKeys(fg.invTouched) {
+		tv := fg.invTouched[k]
+		ct, n := fg.structInvFor(tv.Typ)
+		if ct == nil {
+			continue
+		}
+		u, ok := n.Underlying().(*types.Struct)
+		if !ok {
+			continue
+		}
+		changed := false
+		for i := 0; i < u.NumFields(); i++ {
+			ft := u.Field(i).Type()
+			if isStruct(ft) || isArray(ft) {
+				continue
+			}
+			c := fg.fieldComp(n, i)
+			if fg.get(pre, c) != fg.get(st, c) {
+				changed = true
+			}
+		}
+		if !changed && pre.epoch == st.epoch {
+			continue
+		}
+		guard := and(tv.cond, fmt.Sprintf("(not (= %s 0))", tv.T))
+		fg.oblige("objinv@call", ct.Key+" "+tv.what+", before "+callTxt, implies(guard, fg.invTerm(ct, tv.Typ, tv.T, pre)), ct.Props, "invariant")
+		fg.assumeHere(implies(guard, fg.invTerm(ct, tv.Typ, tv.T, st)))
+	}
 }
